@@ -34,6 +34,19 @@ CHECKS["C13"] = dict(
     note="Trusted: the directories are representative (fixed list, 2 quick / 5 thorough), single faults only. Findings are signed by (file role, fault kind, structural field, symptom); known findings in known_findings.txt (torn-tail tolerance on non-newest segments, MANIFEST without checksum).",
 )
 
+CHECKS["C04"] = dict(
+    engine="seqmc", category="model_checking", design_ref="DESIGN.md 3.4",
+    technique="explicit enumeration of all TieredEngine operation histories up to a depth bound x cache-strategy/capacity grid, including adversarial pokes; after every step every read flavour is compared with a reference map",
+    text="All histories of length <= depth over a 20-letter alphabet (insert/overwrite/delete/batch delete/metadata merge+replace/bulk load that bypasses the hot tier/forced and threshold drain/one background-task tick on a paused clock/two searches/seven adversarial pokes planting stale, same-version-different-payload and token-mismatching entries in L1a and the hot tier) are run on the real TieredEngine for each configuration (LRU, learned, learned+semantic, A/B x L1a capacity x hot-tier soft/hard limits). After every step query, get_document_with_metadata, get_embedding_cache_aware, get_metadata, exists and bulk_query (with and without embeddings) are issued for every id and must equal the reference map; drains and ticks must leave the canonical store unchanged.",
+    note="Trusted: reference map; pokes use the public CacheStrategy/HotTier handles. Bounds: ids {1,2,3}, depth 3 quick / 4 thorough, 8 / 48 configurations. Known finding: drain 'repairs' a hot-only mirror into the canonical store.",
+)
+CHECKS["C20"] = dict(
+    engine="seqmc", category="model_checking", design_ref="DESIGN.md 3.20",
+    technique="same exhaustive history x configuration exploration as C04 with a size-bound invariant evaluated after every operation",
+    text="On every state reached by the C04 exploration (capacities {1,2,8}, hard limits {1,2,4,8}, all four strategies) the document cache never exceeds its capacity (sum of both halves for A/B), the query-result cache never exceeds its capacity, and the hot tier never exceeds its hard limit when an insert has just returned; evicted/drained content staying readable is the C04 read oracle evaluated in the same run.",
+    note="Trusted: size accessors cache_size(), QueryHashCache::len(), HotTier::len(). Same bounds as C04.",
+)
+
 # properties not claimed (yet): id -> reason
 NOT_APPLICABLE = {}
 
